@@ -85,7 +85,7 @@ extern "C" fn p_scb(off: i64, whence: i32, ctx: *mut c_void, newpos: *mut u64) -
     unsafe { *newpos = s.src.pos; }
     0
 }
-struct PExtract { src: PSrc, got: Vec<(Vec<u8>, Vec<u8>)> }
+struct PExtract { src: PSrc, got: Vec<(Vec<u8>, Vec<u8>)>, refuse: Vec<Vec<u8>> }
 extern "C" fn p_out_wcb(b: *const u8, l: u32, ctx: *mut c_void, w: *mut u32) -> i32 {
     let entry = unsafe { &mut *ctx.cast::<(Vec<u8>, Vec<u8>)>() };
     let k = l.min(7);
@@ -96,6 +96,7 @@ extern "C" fn p_out_wcb(b: *const u8, l: u32, ctx: *mut c_void, w: *mut u32) -> 
 extern "C" fn p_filecb(ctx: *mut c_void, name: *const u8, name_len: usize, fw: *mut FileWriter) -> i32 {
     let s = unsafe { &mut *ctx.cast::<PExtract>() };
     let n = unsafe { std::slice::from_raw_parts(name, name_len) }.to_vec();
+    if s.refuse.contains(&n) { return 1; } // the caller does not want this entry
     s.got.push((n, Vec::new()));
     let entry: *mut (Vec<u8>, Vec<u8>) = s.got.last_mut().unwrap();
     unsafe { *fw = FileWriter { write_callback: Some(p_out_wcb), flush_callback: Some(p_fcb), context: entry.cast() }; }
@@ -108,7 +109,7 @@ extern "C" fn p_filecb(ctx: *mut c_void, name: *const u8, name_len: usize, fw: *
 fn probe_c_extract_names_and_bytes() {
     let files: Vec<(String, Vec<u8>)> = vec![
         ("plain.txt".into(), b"0123456789abcdef".to_vec()), ("r\u{e9}sum\u{e9}_1".into(), vec![1u8; 100]), ("r\u{e9}sum\u{e9}_2".into(), vec![2u8; 50]),
-        ("\u{65e5}\u{672c}/\u{8a9e}".into(), vec![3u8; 9]), ("".into(), vec![4u8; 3]),
+        ("\u{65e5}\u{672c}/\u{8a9e}".into(), vec![3u8; 9]), ("".into(), vec![4u8; 3]), ("report\0.txt".into(), vec![5u8; 11]),
     ];
     let mut cfg = mla::config::ArchiveWriterConfig::new();
     cfg.set_layers(mla::Layers::EMPTY);
@@ -116,7 +117,7 @@ fn probe_c_extract_names_and_bytes() {
     for (n, d) in &files { w.add_file(n, d.len() as u64, &d[..]).unwrap(); }
     w.finalize().unwrap();
     let bytes = w.into_raw();
-    let mut st = PExtract { src: PSrc { data: bytes, pos: 0 }, got: Vec::with_capacity(64) };
+    let mut st = PExtract { src: PSrc { data: bytes.clone(), pos: 0 }, got: Vec::with_capacity(64), refuse: Vec::new() };
     let mut rc: MLAConfigHandle = null_mut();
     assert!(matches!(mla_reader_config_new(&raw mut rc), MLAStatus::Success));
     let status = mla_roarchive_extract(&raw mut rc, Some(p_rcb), Some(p_scb), Some(p_filecb), (&raw mut st).cast());
@@ -126,6 +127,24 @@ fn probe_c_extract_names_and_bytes() {
     let mut want: Vec<(Vec<u8>, Vec<u8>)> = files.iter().map(|(n, d)| (n.as_bytes().to_vec(), d.clone())).collect();
     want.sort();
     assert!(got == want, "names / bytes handed to the caller's writers differ from the archive: got names {:?}", got.iter().map(|g| String::from_utf8_lossy(&g.0).to_string()).collect::<Vec<_>>());
+    // partial selections (C12): the caller refuses some entries -- first, middle, last in sorted order, all but one --: every accepted
+    // entry's writer gets exactly that entry's bytes, refused entries get nothing
+    let mut sorted: Vec<Vec<u8>> = files.iter().map(|(n, _)| n.as_bytes().to_vec()).collect();
+    sorted.sort();
+    let k = sorted.len();
+    for refuse_idx in [vec![0usize], vec![1], vec![k - 1], vec![0, 2], (1..k).collect::<Vec<_>>(), (0..k - 1).collect::<Vec<_>>()] {
+        let refuse: Vec<Vec<u8>> = refuse_idx.iter().map(|i| sorted[*i].clone()).collect();
+        let mut st = PExtract { src: PSrc { data: bytes.clone(), pos: 0 }, got: Vec::with_capacity(64), refuse: refuse.clone() };
+        let mut rc: MLAConfigHandle = null_mut();
+        assert!(matches!(mla_reader_config_new(&raw mut rc), MLAStatus::Success));
+        let status = mla_roarchive_extract(&raw mut rc, Some(p_rcb), Some(p_scb), Some(p_filecb), (&raw mut st).cast());
+        assert!(matches!(status, MLAStatus::Success), "extraction of a partial selection through the C interface failed");
+        let mut got: Vec<(Vec<u8>, Vec<u8>)> = st.got.clone();
+        got.sort();
+        let mut want: Vec<(Vec<u8>, Vec<u8>)> = files.iter().filter(|(n, _)| !refuse.contains(&n.as_bytes().to_vec())).map(|(n, d)| (n.as_bytes().to_vec(), d.clone())).collect();
+        want.sort();
+        assert!(got == want, "entries {refuse_idx:?} (sorted order) refused by the caller: the accepted writers did not receive exactly their own entries' bytes");
+    }
 }
 
 // ---- C07/C20/C01 through the C interface: what the configuration entry points leave behind
